@@ -20,14 +20,18 @@ impl SkimItem for NthItem {
     fn get_matching_ranges(&self) -> Option<&[(usize, usize)]> { self.ranges.as_deref() }
 }
 
-const TCH: [char; 16] = ['a', 'b', 'c', 'A', 'B', ' ', '-', '中', 'x', '\t', 'd', 'é', 'É', '\u{130}', '\u{212a}', 'k'];
+const TCH: [char; 20] = ['a', 'b', 'c', 'A', 'B', ' ', '-', '中', 'x', '\t', 'd', 'é', 'É', '\u{130}', '\u{212a}', 'k', '$', '^', '!', '\''];
 const QCH: [char; 12] = ['a', 'b', 'A', 'c', 'x', '中', '\'', '^', '$', '!', '\\', ' '];
 
 fn gen_text(r: &mut Rng) -> String { (0..r.below(12)).map(|_| *r.pick(&TCH)).collect() }
 fn gen_body(r: &mut Rng) -> String { (0..r.below(4)).map(|_| *r.pick(&['a', 'b', 'A', 'c', 'x', '中', 'B', 'É', 'é', 'k'])).collect() }
 fn gen_term(r: &mut Rng) -> String {
     let b = gen_body(r);
-    match r.below(16) {
+    match r.below(19) {
+        // the sigil characters doubled or inside the body: only the outermost one is syntax
+        16 => format!("{}{}", b, r.pick(&["$$", "$$$", "^$", "$^"])),
+        17 => format!("{}{}", r.pick(&["^^", "!!", "''", "!'", "^!", "'^^"]), b),
+        18 => format!("{}{}{}", r.pick(&["^", "!", "'", ""]), [gen_body(r), r.pick(&["$", "^", "!", "'"]).to_string(), b.clone()].concat(), r.pick(&["$", ""])),
         0..=4 => b, 5 => format!("'{}", b), 6 => format!("^{}", b), 7 => format!("{}$", b), 8 => format!("!{}", b),
         9 => format!("^{}$", b), 10 => format!("!^{}", b), 11 => format!("!{}$", b), 12 => format!("'!{}", b), 13 => format!("'^{}$", b),
         14 => (0..r.below(5)).map(|_| *r.pick(&QCH)).collect(),
